@@ -56,7 +56,7 @@ def main():
         print(f"no check for {prop}", file=sys.stderr)
         sys.exit(2)
     try:
-        ctx.build = core.build_and_audit(prop)
+        ctx.build = core.build_and_audit(prop, thorough=(tier == 'thorough'))
         if mode == "replay":
             rc = mod.replay(ctx, json.load(open(replay)))
             sys.exit(rc)
